@@ -11,6 +11,7 @@ import Mfi.Lemmas.BankL
 import Mfi.Lemmas.SkelL
 import Mfi.Lemmas.ConstL
 import Mfi.Lemmas.TagL
+import Mfi.Lemmas.WorldL
 
 namespace Mfi.Props.C17
 open Mfi Mfi.Fx Mfi.Bank Mfi.Gen
@@ -292,5 +293,73 @@ theorem scaling_table_is_powers_of_ten : Mfi.Gen.EXP_10_I80F48 = Mfi.Fx.POW10FX 
     they are constrained to the program's own banks (constraint table regenerated from the source; Mfi.TagL) -/
 theorem standard_instructions_only_on_own_banks : Mfi.TagL.OwnBanks :=
   Mfi.TagL.standard_instructions_only_on_own_banks
+
+section whole_instructions
+open Mfi Mfi.World Mfi.Gen Mfi.Gen.Acc Mfi.Bank
+
+/-! ### whole instructions (Mfi/Model/World.lean) -/
+
+theorem borrowCore_util {e : Ix.Env} {b b' : Bank} {x x' : Balance} {amount t : Int}
+    (h : borrowCore e b x amount = .ok (b', x', t)) :
+    ∃ ta tl, assetAmount b' b'.sa = .ok ta ∧ liabAmount b' b'.sl = .ok tl ∧ tl ≤ ta := by
+  unfold borrowCore at h
+  obtain ⟨pre, _, h⟩ := Res.bind_ok h
+  split at h
+  · obtain ⟨fee, _, h⟩ := Res.bind_ok h
+    obtain ⟨_, _, h⟩ := Res.bind_ok h
+    obtain ⟨tot, _, h⟩ := Res.bind_ok h
+    obtain ⟨⟨b2, x2⟩, hd, h⟩ := Res.bind_ok h
+    dsimp only at h
+    have hu := utilization_after hd (by decide)
+    split at h
+    · injection h with h; injection h with hb _; subst hb; exact hu
+    · split at h
+      · obtain ⟨pf, _, h⟩ := Res.bind_ok h
+        injection h with h; injection h with hb _; subst hb; exact hu
+      · injection h with h; injection h with hb _; subst hb; exact hu
+  · obtain ⟨⟨b2, x2⟩, hd, h⟩ := Res.bind_ok h
+    injection h with h; injection h with hb _; subst hb
+    exact utilization_after hd (by decide)
+
+/-- **world_borrow_keeps_deposits_above_debt**: after a successful `lending_account_borrow` (the whole instruction, origination
+    fee included) the bank's total deposits are at least its total debt -/
+theorem world_borrow_keeps_deposits_above_debt {c : Ctx} {amt : Int} {o : Out} (h : World.borrow c amt = .ok o) :
+    ∃ ta tl, assetAmount o.books o.books.sa = .ok ta ∧ liabAmount o.books o.books.sl = .ok tl ∧ tl ≤ ta := by
+  obtain ⟨b, slots, i, x, x', _, _, _, _, _, hcore, _⟩ := (borrow_ok h).core
+  exact borrowCore_util hcore
+
+theorem withdrawAll_util {b b' : Bank} {x x' : Balance} {now t : Int} (h : withdrawAll b x now = .ok (b', x', t)) :
+    ∃ ta tl, assetAmount b' b'.sa = .ok ta ∧ liabAmount b' b'.sl = .ok tl ∧ tl ≤ ta := by
+  unfold withdrawAll at h
+  obtain ⟨⟨b1, x1⟩, _, h⟩ := Res.bind_ok h
+  dsimp only at h
+  obtain ⟨curA, _, h⟩ := Res.bind_ok h
+  obtain ⟨curL, _, h⟩ := Res.bind_ok h
+  obtain ⟨_, _, h⟩ := Res.bind_ok h
+  obtain ⟨_, _, h⟩ := Res.bind_ok h
+  obtain ⟨bal', _, h⟩ := Res.bind_ok h
+  obtain ⟨b2, _, h⟩ := Res.bind_ok h
+  obtain ⟨_, hu, h⟩ := Res.bind_ok h
+  obtain ⟨dust, _, h⟩ := Res.bind_ok h
+  obtain ⟨f, _, h⟩ := Res.bind_ok h
+  obtain ⟨amt, _, h⟩ := Res.bind_ok h
+  injection h with h; injection h with hb _; subst hb
+  exact checkUtil_ok hu
+
+/-- … and after a successful withdrawal, partial or complete -/
+theorem world_withdraw_keeps_deposits_above_debt {c : Ctx} {amt : Int} {all : Bool} {o : Out} (h : World.withdraw c amt all = .ok o) :
+    ∃ ta tl, assetAmount o.books o.books.sa = .ok ta ∧ liabAmount o.books o.books.sl = .ok tl ∧ tl ≤ ta := by
+  obtain ⟨price, b, i, s, x', pre, _, _, _, hcore, _⟩ := (withdraw_ok h).core
+  unfold withdrawCore at hcore
+  cases all with
+  | true => exact withdrawAll_util (by simpa using hcore)
+  | false =>
+    simp only [Bool.false_eq_true, if_false] at hcore
+    obtain ⟨p, _, hcore⟩ := Res.bind_ok hcore
+    obtain ⟨⟨b2, x2⟩, hd, hcore⟩ := Res.bind_ok hcore
+    injection hcore with hcore; injection hcore with hb _; subst hb
+    exact utilization_after hd (by decide)
+
+end whole_instructions
 
 end Mfi.Props.C17
